@@ -1,7 +1,7 @@
 """The corpus: which declarations the stage-2 properties are proved on (DESIGN.md section 3).
 Deterministic; the thorough tier adds systematically enumerated and VERIF_SEED-driven layouts.
 Every struct is checked against the C09 acceptance rule when the corpus is built."""
-import random
+import os, random
 from .model import *
 
 ARB_Q = (1, 7, 9, 15, 17, 24, 31, 33, 48, 63, 65, 127)
@@ -1018,4 +1018,7 @@ def all_programs(tier, seed=0):
     progs += random_programs(seed, 40 if tier == "thorough" else 10)
     ids = [p.pid for p in progs]
     assert len(ids) == len(set(ids))
+    only = os.environ.get("VERIF_ONLY")   # debugging aid (never set by a registered command): restrict the corpus to the named programs
+    if only:
+        progs = [p for p in progs if p.pid in only.split(",")]
     return progs
